@@ -514,7 +514,20 @@ func (t *Transaction) Wait(table string, timeout *int, where []ovsdb.Condition, 
 	// column an expected row leaves out has its default value there
 	allColumns := len(columns) == 0
 	if allColumns {
+		// (of those the model of the table has a field for: the database
+		// holds nothing in the others)
+		mapped, err := dbModel.NewModel(table)
+		if err != nil {
+			return ovsdb.ResultFromError(err)
+		}
+		mappedInfo, err := dbModel.NewModelInfo(mapped)
+		if err != nil {
+			return ovsdb.ResultFromError(err)
+		}
 		for column := range realTable.Columns {
+			if _, err := mappedInfo.FieldByColumn(column); err != nil {
+				continue
+			}
 			columns = append(columns, column)
 		}
 	}
